@@ -62,7 +62,7 @@ def build_session(sk):
 
 def plan(tier, seed):
     n = 16 if tier == 'quick' else 64
-    return [{'shard': i, 'messages': 160 if tier == 'quick' else 3500} for i in range(n)]
+    return [{'shard': i, 'messages': 700 if tier == 'quick' else 6000} for i in range(n)]
 
 
 def expected_from_intent(intent, recv_ap):
